@@ -74,7 +74,8 @@ def dcases_v(cs):
         if c["signed"]:
             orc = "[" + "; ".join("(T%s, %s)" % (t, ", ".join(b(x) for x in c["oracle"][t])) for t in STYPES) + "]"
             exp = "None" if c["expect"] in ("", "PANIC") else "(Some T%s)" % c["expect"]
-            srows.append("{| s_id := %d; s_duty := %s; s_prefix := %s; s_oracle := %s; s_expect := %s |}" % (c["id"], duty, pack(c["prefix"]), orc, exp))
+            ver = {"not-eth2": "(Some VNotEth2)", "ran": "(Some VRan)"}.get(c.get("verify", ""), "None")
+            srows.append("{| s_id := %d; s_duty := %s; s_prefix := %s; s_oracle := %s; s_expect := %s; s_verify := %s |}" % (c["id"], duty, pack(c["prefix"]), orc, exp, ver))
         else:
             orc = "[" + "; ".join("(U%s, %s)" % (t, ", ".join(b(x) for x in c["oracle"][t])) for t in UTYPES) + "]"
             exp = "None" if c["expect"] in ("", "PANIC") else "(Some U%s)" % c["expect"]
@@ -132,7 +133,7 @@ def _main():
         "inner codecs (go-eth2-client SSZ/JSON, fastssz helpers, encoding/json, protobuf) are parameters of the theorems: round-trip is assumed where a theorem needs it, and is what the harness round-trip runs sample",
         "json_prefix models bytes.TrimSpace for ASCII white space only; inputs whose first byte after ASCII white space is >= 0x80 are treated as non-JSON (encoding/json rejects them in either reading)",
         "when SSZ decoding fails and JSON is tried, Go decodes into the same (possibly partly filled) variable; the model treats the JSON decoder as a function of the bytes alone",
-        "crash-freedom (no panic when a decoded value is used) is NOT a theorem: it is explored by structural JSON mutation, SSZ truncation/splices/word edits, fixed-size and arbitrary byte strings, followed by MessageRoot/Signature/Clone/MarshalJSON/MarshalSSZ/ToProto/SetSignature/Epoch/VerifyEth2SignedData/parsigdb.StoreExternal (signed) and Clone/MarshalJSON/MarshalSSZ/ToProto/HashTreeRoot/dutydb.Store (unsigned), each under recover",
+        "crash-freedom (no panic when a decoded value is used) is NOT a theorem: it is explored by structural JSON mutation, SSZ truncation/splices/word edits, fixed-size and arbitrary byte strings, followed by MessageRoot/Signature/Clone/MarshalJSON/MarshalSSZ/ToProto/SetSignature/Epoch/VerifyEth2SignedData/the real parsigex.NewEth2Verifier/parsigdb.StoreExternal (signed) and Clone/MarshalJSON/MarshalSSZ/ToProto/HashTreeRoot/dutydb.Store (unsigned), each under recover",
         "VersionedAggregatedAttestation is generated without validator index (its SSZ form, shape V, does not carry one)",
         "legacy (index-less) VersionedAttestation encodings are ambiguous with indexed ones when data.slot = F * 2^32 + 20 (F = 228 / 236, the fixed size of the attestation) and the aggregation bits have >= 9 bytes: such a value decodes as a different, indexed attestation (C14_envelope_roundtrip_Att_legacy_refuted_ambiguous; observed on the real code and recorded under documented_deviations). Slots >= 2^32 are treated as outside the domain of the lossless claim; random generation hits this with probability ~2^-64",
     ]
@@ -240,7 +241,7 @@ def _main():
         bycls.setdefault(f["class"], []).append(f)
     ordered = []
     while any(bycls.values()):
-        for k in ("panic", "roundtrip", "decode-panic"):
+        for k in ("panic", "roundtrip", "accept-roundtrip", "decode-panic"):
             if bycls.get(k):
                 ordered.append(bycls[k].pop(0))
     for f in ordered:
@@ -249,6 +250,8 @@ def _main():
                "how": "./check C14 --replay <this file> feeds the input to ParSignedDataFromProto / UnsignedDataSetFromProto under every duty type and applies the post-decode operations"}
         if f["class"] == "roundtrip":
             what = "%s does not survive %s: %s" % (f.get("entry") or f["type"], f["op"], f["msg"])
+        elif f["class"] == "accept-roundtrip":
+            what = "%s accepted from %s (%s %s) does not survive re-encoding (%s): %s" % (f["type"], f["format"], f.get("kind", ""), f.get("path", ""), f["op"], f["msg"][:160])
         elif f["class"] == "decode-panic":
             what = "panic inside %s on %s input" % (f["op"], f["format"])
         else:
@@ -268,7 +271,7 @@ def _main():
                                         "envelope_by_outcome": {k: sum(1 for c in ecs if c["expect"]["kind"] == k) for k in ("ok", "okA", "err", "panic")},
                                         "dispatch_accepted": sum(1 for c in dcs if c["expect"]),
                                         "model_mismatches": n_rej,
-                                        "exploration_findings_by_class": {k: sum(1 for f in o["findings"] if f["class"] == k) for k in ("panic", "roundtrip", "decode-panic")}}
+                                        "exploration_findings_by_class": {k: sum(1 for f in o["findings"] if f["class"] == k) for k in ("panic", "roundtrip", "accept-roundtrip", "decode-panic")}}
     R.coverage["exploration"] = {"label": "exploration, not proof: crash-freedom half",
                                  "json_mutants": st.get("json_mutants", 0), "ssz_mutants": st.get("ssz_mutants", 0),
                                  "arbitrary_inputs": st.get("arbitrary_inputs", 0) + st.get("fixed_size_inputs", 0),
